@@ -1,35 +1,180 @@
 """Per-property metadata: level claimed, what the check establishes, assumptions, technique."""
 
-TECHNIQUE = ("contract-based deductive verification: VCs generated from the real /repo ASTs by pyvc "
-             "(symbolic execution against sidecar contracts and loop invariants), discharged by z3/cvc5; "
-             "counter-models replayed on the real code; bounded runtime-contract stand-in where labelled")
+TECHNIQUE = ("contract-based deductive verification: VCs generated from the real /repo ASTs by pyvc (symbolic "
+             "execution of the functions against sidecar contracts, loop invariants and ghost state), discharged "
+             "by z3 / cvc5; counter-models replayed on the real code; bounded runtime-contract stand-in where "
+             "labelled")
+
+_BOUNDED = ("; shape-bounded harnesses (bounded number of objects/segments/chunks, all values symbolic) and the "
+            "bounded runtime-contract stand-in are reported separately and never counted as proved")
 
 PROPS = {
-    "C04": dict(
-        level="proof",
-        claim="For every number of segments and chunks (loops cut by inductive invariants, all integers "
-              "unbounded) TdmsReader.read_raw_data_for_channel yields consecutive windows whose concatenation "
-              "is values[offset:min(offset+length,n)]; _read_slice/_read_at_index agree with Python's slice "
-              "and index semantics for all integers; the segment-level channel stream delivers chunk i of "
-              "the request from the channel's slot of that chunk.",
-        note="assumes the model library (numpy.searchsorted on a nondecreasing array, array slicing, "
-             "struct, file protocol) and Reader.inv (index = prefix sums of per-segment value counts, "
-             "established by _build_index); chunk readers are verified for <= 3 data objects per segment "
-             "(shape-bounded, values unbounded) and reported separately",
-        assumptions=["np.searchsorted / slicing semantics as stated in pyvc/models (trusted_base)",
-                     "Reader.inv: _segment_channel_offsets[path] = cumulative sums of _number_of_segment_values"],
-    ),
-    "C19": dict(
-        level="proof",
-        claim="Ghost read-set obligations: every chunk requested from a segment by "
-              "read_raw_data_for_channel overlaps [offset, end) (first and last requested chunk), the "
-              "segment-level stream reads only inside the requested channel's slot of each requested chunk "
-              "(contiguous layout), fromfile/read_values read only the bytes asked for, a cache hit in "
-              "_read_at_index performs no reader call.",
-        note="an empty request is read as the position `offset`; OS read-ahead is below contract level; "
-             "one known finding (truncated final chunk holding 0 values of the channel)",
-        assumptions=["file protocol model: read/readinto transfer exactly min(n, size-pos) bytes"],
-    ),
+    "C01": dict(level="other",
+                claim="Contracts on every function between the bytes and the values: lead-in parse, raw data index (17 "
+                      "types, type table checked against the layout table), property parse, typed value reads and "
+                      "fromfile are proved for all inputs; chunk readers (contiguous, interleaved), metadata "
+                      "accumulation, the metadata walk, the hierarchy and the eager data read are proved for bounded "
+                      "shapes with symbolic values; a runtime contract compares TdmsFile.read with an independent "
+                      "encoder's model on random small files.",
+                note="composition of the per-function contracts into the end-to-end statement is argued in DESIGN.md, "
+                     "not machine-checked; NumPy/struct/utf-8 are assumed contracts (trusted_base)",
+                assumptions=["bit-exactness = 'bytes come from the right addresses, in the right byte order and dtype' "
+                             "+ NumPy reinterpretation semantics"]),
+    "C02": dict(level="other",
+                claim="read_segment_objects and its helpers executed symbolically against spec.inherit.denote (the "
+                      "explicit object list a segment's metadata means) for every ToC flag combination, header kind "
+                      "and path equality pattern with <= 2 previous objects and <= 2 listed objects; FRAME obligations: "
+                      "earlier segments' lists and objects are never modified; forbidden encodings raise ValueError; "
+                      "runtime contract: explicit / incremental / metadata-less encodings of random files read alike.",
+                note="shape-bounded in the number of objects (values, paths, flags symbolic); unique paths within an "
+                     "object list are a precondition",
+                assumptions=["copy.copy is a shallow field copy", "ObjectListKey hash consistency (eq => equal hash) by "
+                             "construction of the xor fold"]),
+    "C03": dict(level="other",
+                claim="Every access path of TdmsChannel has the postcondition 'the window W(request) of the same value "
+                      "sequence': __getitem__ dispatch, read_data (eager and lazy, typed / typeless / DAQmx), data, "
+                      "raw_data, raw_scaler_data, _read_channel_data, channel and file chunk streams with offsets = "
+                      "running count, receivers; runtime contract over all access paths incl. memmap and raw timestamps.",
+                note="functions shared by all paths (readers) are used through their contracts on both sides; np.memmap "
+                     "backing store is below contract level",
+                assumptions=["np.memmap arrays behave as arrays"]),
+    "C04": dict(level="proof",
+                claim="For every number of segments and chunks (loops cut by inductive invariants, all integers "
+                      "unbounded) TdmsReader.read_raw_data_for_channel yields consecutive windows whose concatenation is "
+                      "values[offset:min(offset+length,n)]; read_channel_chunk_for_index returns the chunk containing "
+                      "the index; _read_slice / _read_at_index agree with Python's slice and index semantics for all "
+                      "integers; the segment-level channel stream delivers chunk i from the channel's slot.",
+                note="assumes Reader.inv (index = prefix sums of per-segment value counts, proved for <= 3 segments in "
+                     "harness build_index) and the model library (searchsorted, slicing)" + _BOUNDED,
+                assumptions=["np.searchsorted on a nondecreasing array", "lemma cum monotone (proved by induction)"]),
+    "C05": dict(level="other",
+                claim="Operations are verified with the file cursor havocked at every yield and at entry: the channel "
+                      "stream and (after the fix) the file-level stream re-establish their position (loop invariant "
+                      "'cursor at start of chunk i'), _verify_segment_start seeks from any cursor, the one-chunk cache "
+                      "invariant is re-established by _read_at_index, memo fields equal their recomputation; runtime "
+                      "contract over random interleavings of reads and live generators.",
+                note="independence over all histories follows by induction on the history from 'every operation "
+                     "re-establishes the invariants and its result is a function of file and request'; that induction "
+                     "is argued in DESIGN.md (the Lean lemma planned there was not built)",
+                assumptions=["single thread; file contents immutable while open"]),
+    "C06": dict(level="other",
+                claim="_read_lead_in: clamp of the segment end to the data file size, incomplete flag, EOFError for cut "
+                      "lead-in / metadata (proved for all byte contents and sizes); _calculate_chunks (proved); final "
+                      "chunk lengths = largest prefix-closed counts that fit (<= 3 objects); short reads in fromfile / "
+                      "read_interleaved_segment_bytes (proved); length accounting; file_status; runtime contract: "
+                      "every cut offset of random files, eager and lazy, explicit and unknown-length lead-in.",
+                note="strings in truncated multi-chunk segments are excluded as in the statement",
+                assumptions=["short reads happen only at EOF (file model)"]),
+    "C07": dict(level="other",
+                claim="to_int_property_value (all integers), _infer_dtype (lists of <= 3 integers of any magnitude), "
+                      "value->type dispatch and serialisation of every property kind, segment serialisation parsed "
+                      "back under the layout grammar, TimeStamp encoding (all datetimes, integer proof); composition "
+                      "with the reader's contracts; runtime contract: random write_segment sequences over sessions "
+                      "read back.",
+                note="bytes-valued properties and object-dtype integer arrays are not documented as accepted input",
+                assumptions=["struct / utf-8 codecs mutually inverse", "ndarray.tofile writes nbytes"]),
+    "C08": dict(level="other",
+                claim="The bytes produced by TdmsSegment.write are parsed by spec.layout's grammar: lead-in offsets equal "
+                      "metadata length and raw data length, every length field equals the bytes that follow (raw index "
+                      "20 / 28), counts, raw data = what types and counts imply; write_segment: root in the first "
+                      "segment, groups before channels, stable channel order, index twin built from the same object "
+                      "list; runtime contract: independent structural parser on random output.",
+                note="7 object lists x index on/off x 2 versions, names / values / lengths symbolic",
+                assumptions=["len(b''.join(xs)) = sum(len(x))"]),
+    "C09": dict(level="other",
+                claim="read_metadata walk: the stream cursor and segment position fed to every lead-in parse are the "
+                      "data-file position and the index-stream position of segment k in the respective mode (<= 3 "
+                      "segments, offsets symbolic); _read_lead_in clamps with the data file's size in both modes "
+                      "(proved); index discovery and index-only detection; index-only data reads raise; runtime "
+                      "contract with index files from an independent encoder.",
+                note="one known finding (index-only open with unknown-length marker)",
+                assumptions=["os.path.isfile / open do not fail on existing files"]),
+    "C10": dict(level="other",
+                claim="defragment verified against contracts only: source opened with raw timestamps, one segment for "
+                      "root, each group, each channel with read_data(scaled=False) data and the same properties; writer "
+                      "serialisation of raw timestamps bit-exact; empty untyped channels written without index; "
+                      "runtime contract on random fragmented files.",
+                note="DAQmx sources excluded by the statement", assumptions=["C01, C07 contracts"]),
+    "C11": dict(level="other",
+                claim="DAQmx raw index parse in segment byte order, buffer dimensions and chunk size, truncated final "
+                      "chunk, column extraction at buffer start + row*width + byte offset with the scaler's type and "
+                      "byte order, digital-line bit (bit-vector lemma proved for 8/16/32/64 bits); runtime contract on "
+                      "random DAQmx segments from an independent encoder.",
+                note="<= 2 channels x <= 2 scalers x <= 2 buffers in the deductive harnesses",
+                assumptions=["NumPy 2-D column selection + ravel"]),
+    "C12": dict(level="proof",
+                claim="TimeStamp encoding proved for all datetime64[us] values (integers): floor decomposition, "
+                      "fractions within the written microsecond and nanosecond with a 2**-40 s guard; decoding proved "
+                      "over the reals with the exact value of the double constant: within one step of the exact time, "
+                      "monotone; scalar and array conversion are the same term; time_track characterised for an "
+                      "arbitrary index; byte layouts per byte order; IEEE rounding decided exhaustively for all 10**6 "
+                      "microsecond values by the bounded stand-in.",
+                note="the one IEEE division of the decoder is outside the deductive part (A-REAL)",
+                assumptions=["A-REAL for as_datetime64 and time_track", "A-INT: no int64 overflow in datetime64 counts"]),
+    "C13": dict(level="other",
+                claim="get_scaling lookup order (27 placements), construction of every scale type from properties "
+                      "(symbolic coefficients, no swaps), dataflow evaluation against spec for 8 wirings with "
+                      "uninterpreted scale formulas, Linear / Polynomial / Table formulas over the reals, Add / Subtract "
+                      "convention, purity by alias tracking (no in-place update of the input), application points use "
+                      "the same scaling; runtime contract on random graphs of depth <= 4.",
+                note="real arithmetic; NumPy elementwise semantics assumed", assumptions=["A-REAL"]),
+    "C14": dict(level="other",
+                claim="declared dtype: _raw_data_dtype per type, dtype dispatch, _compute_scale_dtype follows the "
+                      "evaluation graph; every empty-result site carries the declared dtype; runtime contract "
+                      "exhaustive over raw type x scale kind for all read operations.",
+                note="NumPy's promotion table is sampled by executing the real operators (bounded stand-in); two known "
+                     "findings (raw-timestamp dtype, big-endian chunk dtype)", assumptions=["NumPy promotion rules"]),
+    "C15": dict(level="other",
+                claim="Every parse obligation is stated for the byte order derived from that segment's ToC mask: lead-in "
+                      "(ToC mask itself little-endian), object count, raw index, properties of every type, typed reads "
+                      "(dtype in segment order), timestamps (field order), strings, interleaved columns, DAQmx records; "
+                      "runtime contract: little / big / mixed encodings of random files read alike.",
+                note="values equal; the byte order of chunk arrays' dtype is a C14 matter", assumptions=[]),
+    "C16": dict(level="proof",
+                claim="_path_components executed on enc(names) for names of unbounded length over arbitrary code points: "
+                      "two loop invariants (component cursor; character cursor k = base + L(j), component = name[:j]) "
+                      "prove every yielded component equals the name given to the encoder, no ValueError, and "
+                      "termination only after the last component; the encoder's structure; lemma L(j) >= j by "
+                      "induction; exhaustive runtime check for all names of length <= 4 over {quote, slash, space, "
+                      "letter}.",
+                note="str.replace / join are characterised pointwise (assumed)",
+                assumptions=["pointwise characterisation of quote doubling and concatenation"]),
+    "C17": dict(level="proof",
+                claim="Over the reals (nonlinear arithmetic): RtdScaling returns T for T >= 0 (quadratic branch) and T is "
+                      "a root of the quartic the code builds for T < 0; ThermistorScaling inverts Steinhart-Hart for "
+                      "current and voltage excitation with lead compensation; StrainScaling inverts the Wheatstone "
+                      "bridge equation of all seven configurations (with NI's gain and lead corrections); polynomial "
+                      "and table formulas; IEEE 1e-6 bound checked on grids by the bounded stand-in.",
+                note="polyroots assumed to return the roots; uniqueness of the negative real root is a physical "
+                     "precondition", assumptions=["A-REAL", "ln uninterpreted (congruence)"]),
+    "C18": dict(level="proof",
+                claim="Tables rebuilt from the source on every run: coefficients, boundaries and the type-K exponential "
+                      "equal the frozen NIST data; partition and totality (NaN default never selected), continuity by "
+                      "exact rationals, forward strictly increasing on each piece (nlsat), |inverse(forward(T)) - T| "
+                      "within the NIST error range for all real T (two-variable nlsat), direction and microvolt "
+                      "convention of ThermocoupleScaling.",
+                note="type K above 0 C (exponential term): inverse error decided by the bounded stand-in only; IEEE "
+                     "evaluation of polyval not decided", assumptions=["A-REAL", "NIST inverse error ranges transcribed, "
+                                                                       "widened by 0.015 C"]),
+    "C19": dict(level="proof",
+                claim="Ghost read-set obligations: every chunk requested from a segment by read_raw_data_for_channel "
+                      "overlaps [offset, end) (first and last requested chunk), the segment-level stream reads only "
+                      "inside the requested channel's slot of each requested chunk, fromfile / read_values read only "
+                      "the bytes asked for, _verify_segment_start reads exactly the 4 tag bytes, a cache hit in "
+                      "_read_at_index performs no reader call.",
+                note="an empty request is read as the position `offset`; one known finding (truncated final chunk "
+                     "holding 0 values of the channel)" + _BOUNDED,
+                assumptions=["file protocol model: read/readinto transfer exactly min(n, size-pos) bytes"]),
+    "C20": dict(level="proof",
+                claim="Typestate contracts with ghost ownership: TdmsReader.__init__ records a path exactly for handles "
+                      "it opened, close() closes those and only those, is idempotent, _ensure_open raises afterwards "
+                      "and the three data entry points raise RuntimeError; read_metadata closes the owned index stream "
+                      "on normal and exceptional exit; TdmsFile.__init__ closes the reader on every exit unless "
+                      "keep_open (failure injected at each callee); TdmsWriter with-block closes what it opened, never "
+                      "caller streams; runtime contract on /proc/self/fd.",
+                note="kernel descriptor table below contract level; outside the statement: TdmsFile.open raising, "
+                     "failure of the second open() in TdmsReader.__init__", assumptions=["file.close() releases the "
+                                                                                       "descriptor"]),
 }
 
 
